@@ -1,0 +1,55 @@
+//go:build verif
+
+// Contracts for package auth (C11), checked by /verif/cmd/nsqvc. Comment-only file.
+
+package auth
+
+//@ pred hasPerm(a *Authorization, permission string) :=
+//@      exists i int :: {a.Permissions[i]} 0 <= i && i < len(a.Permissions) && a.Permissions[i] == permission
+//@ func (a *Authorization) HasPermission(permission string) bool
+//@   props C11
+//@   requires a != nil
+//@   ensures[exact] result <==> hasPerm(a, permission)
+//@   modifies
+//@   loop 0
+//@     invariant forall k int :: {a.Permissions[k]} 0 <= k && k <= rangeindex && k < len(a.Permissions) ==> a.Permissions[k] != permission
+
+// allowed <==> the needed permission (subscribe for a channel, publish otherwise) is granted,
+// the topic pattern matches and one of the channel patterns matches the channel.
+//@ pred chanMatch(a *Authorization, channel string) :=
+//@      exists i int :: {a.Channels[i]} 0 <= i && i < len(a.Channels) && reMatch(a.Channels[i], channel)
+//@ pred allows(a *Authorization, topic string, channel string) :=
+//@      hasPerm(a, channel != "" ? "subscribe" : "publish") && reMatch(a.Topic, topic) && chanMatch(a, channel)
+//@ func (a *Authorization) IsAllowed(topic, channel string) bool
+//@   props C11
+//@   requires a != nil
+//@   ensures[exact] result <==> allows(a, topic, channel)
+//@   modifies
+//@   loop 0
+//@     invariant forall k int :: {a.Channels[k]} 0 <= k && k <= rangeindex && k < len(a.Channels) ==> !reMatch(a.Channels[k], channel)
+
+// expired <==> the expiry instant lies before the clock reading taken by this call
+//@ func (a *State) IsExpired() bool
+//@   props C11
+//@   requires a != nil
+//@   ensures[exact] result == (unixNano(a.Expires) < unixNano(lastNow))
+//@   modifies lastNow
+
+// The same predicate over an Authorization value (an element of State.Authorizations).
+//@ pred hasPermV(v Authorization, permission string) :=
+//@      exists i int :: {v.Permissions[i]} 0 <= i && i < len(v.Permissions) && v.Permissions[i] == permission
+//@ pred chanMatchV(v Authorization, channel string) :=
+//@      exists i int :: {v.Channels[i]} 0 <= i && i < len(v.Channels) && reMatch(v.Channels[i], channel)
+//@ pred allowsV(v Authorization, topic string, channel string) :=
+//@      hasPermV(v, channel != "" ? "subscribe" : "publish") && reMatch(v.Topic, topic) && chanMatchV(v, channel)
+//@ pred stateAllows(a *State, topic string, channel string) :=
+//@      exists i int :: {a.Authorizations[i]} 0 <= i && i < len(a.Authorizations) && allowsV(a.Authorizations[i], topic, channel)
+
+// a topic/channel is allowed <==> some authorization of the current answer allows it
+//@ func (a *State) IsAllowed(topic, channel string) bool
+//@   props C11
+//@   requires a != nil
+//@   ensures[exact] result <==> stateAllows(a, topic, channel)
+//@   modifies
+//@   loop 0
+//@     invariant forall k int :: {a.Authorizations[k]} 0 <= k && k <= rangeindex && k < len(a.Authorizations) ==> !allowsV(a.Authorizations[k], topic, channel)
